@@ -36,6 +36,7 @@ def check(run: Run, prog: Program, model: Model, tier: str) -> None:
         "holding a fixed payload and every refinement that sets a prop the validator checks, a rejecting branch "
         "must exist whose predicate covers the validator's failing predicate for that prop.")
     run.explanation += " VALCHK-KIND: every kind the declaration admits for the fixed value (isinstance guards of the refinement, minus excluded kinds) is handed to the validator as declared and validated value; no path may build a TypeValidationError. Format specs ({x:d}) are partial operations under the operand's kind."
+    run.explanation += ' VALCHK-SELF: with the declared value handed to the validator as value and as props.value, every error other than a reflexive value comparison has a deciding predicate that every accepting path of __call__ rules out. OPERATORS: declaration.union on a schema and on a definitely-non-schema operand.'
     run.rule_text = ("obligations: (type, state, shape) transitions for the escape rule; (type, state, shape) with "
                      "overlap for REDECLARE; (type, prop, validator row) for VALCHK; non-trivial = transitions with at "
                      "least one partial operation or value predicate")
@@ -109,6 +110,7 @@ def check(run: Run, prog: Program, model: Model, tier: str) -> None:
     run.floor("REDECLARE", 100)
     run.floor("VALCHK", 12)
     run.floor("VALCHK-KIND", 4)
+    _operators(run, prog, model)
 
 
 from ..vtable import LOSSY, lossy_image as _lossy_image  # noqa: E402
@@ -233,6 +235,50 @@ def _valchk_kind(run: Run, prog: Program, model: Model, st: SchemaType) -> None:
                              "validate(s, s.props.value) has errors")
     else:
         run.holds("VALCHK-KIND", c, f.loc, f"admitted {sorted(adm)}" + (f" minus {sorted(exc)}" if exc else ""), nontrivial=True)
+
+
+def _operators(run: Run, prog: Program, model: Model) -> None:
+    """OPERATORS: `a | b` is a declaration call too (Schema.__or__ is rebound to declaration.union): for an operand that
+    is not a schema it raises DeclarationError like every other call - it neither returns something that is not a schema
+    (NotImplemented makes Python raise TypeError) nor lets another exception out."""
+    from ..engine import Interp
+    from ..values import Ext, SchemaV
+    try:
+        f = prog.func("d42.declaration.union")
+    except Exception:
+        run.undecided("OPERATORS", "schema | other", "", "declaration.union not found")
+        return
+    for label, mk in (("schema | <schema>", lambda: Sym("other", "Schema", ("param", "other"))),
+                      ("schema | <not a schema>", lambda: Sym("other:bad", "int", ("param", "other"), exact=True))):
+        it = Interp(prog, model, unroll=1, max_depth=7)
+
+        def run1(i: Interp, mk: Any = mk) -> V:
+            return i.call_function(f, [Sym("self", "Schema", ("param", "self")), mk()], {})
+        probs: List[str] = []
+        n = 0
+        for p in it.run_paths(run1):
+            n += 1
+            if p.outcome == "return":
+                v = p.value
+                if isinstance(v, SchemaV) or (isinstance(v, (Sym, Term)) and getattr(v, "kind", None) == "Schema"):
+                    if "not a schema" in label:
+                        probs.append("an operand that is not a schema is accepted")
+                    continue
+                probs.append(f"returns {v.key()[:40] if v is not None else None}, which is not a schema"
+                             + (" (Python then raises TypeError)" if isinstance(v, Ext) and "NotImplemented" in v.key() else ""))
+            elif p.outcome == "raise":
+                nm = p.value.cls_name if p.value is not None else "?"
+                if nm != "DeclarationError":
+                    probs.append(f"raises {nm}")
+                elif "not a schema" not in label:
+                    probs.append("raises DeclarationError for two schemas")
+        c = f"{label}"
+        if probs:
+            run.violated("OPERATORS", c, f.loc, "; ".join(sorted(set(probs))), witness="schema.int | 5 raises TypeError instead of DeclarationError")
+        elif n:
+            run.holds("OPERATORS", c, f.loc, f"{n} path(s): a schema or DeclarationError", nontrivial=True)
+        else:
+            run.undecided("OPERATORS", c, f.loc, "no path")
 
 def _valchk(run: Run, prog: Program, model: Model, st: SchemaType, ta: TypeAutomaton, tier: str) -> None:
     payload = PAYLOAD.get(st.name, "value")
@@ -437,6 +483,8 @@ S = "d42/declaration/types/_str_schema.py"
 I = "d42/declaration/types/_int_schema.py"
 L = "d42/declaration/types/_list_schema.py"
 MUTANTS = [
+    {"name": "union returns NotImplemented for a non-schema operand (seeded C10-K)", "rule": "OPERATORS",
+     "edits": [("d42/declaration/__init__.py", "def union(self: GenericSchema, other: Any) -> AnySchema:\n", "def union(self: GenericSchema, other: Any) -> AnySchema:\n    if not isinstance(other, Schema):\n        return NotImplemented  # type: ignore[return-value]\n")]},
     {"name": "uuid4 declaration accepts any UUID version again (fix f203471 reverted)", "rule": "VALCHK-SELF",
      "edits": [("d42/declaration/types/_uuid4_schema.py", "        if value.version != 4:\n", "        if False:\n")]},
     {"name": "len error helpers use :d and the exact-len check runs before the type check (seeded C10-I)", "rule": "ONLY-DECLARATIONERROR",
